@@ -109,6 +109,21 @@ theorem asI32_of_le {n : Nat} (h : n ≤ 2147483647) : asI32 n = n := by
   have : n < 2147483648 := by omega
   simp only [this, ↓reduceIte]
 
+/-- Beyond `i32::MAX` the cast wraps: a width of `2^31` becomes `i32::MIN`, so the test
+`p.x >= width as i32` holds for every `p` and `pixel` answers `None` everywhere. -/
+theorem pixel_none_of_width_wraps (im : ImageRaw) (h : im.size.w = 2147483648) (p : Pt) :
+    im.pixel p = none := by
+  unfold pixel asI32
+  rw [h]
+  have : p.x < 0 ∨ p.y < 0 ∨ p.x ≥ (if 2147483648 % 4294967296 < 2147483648
+      then (((2147483648 % 4294967296 : Nat)) : Int)
+      else ((2147483648 % 4294967296 : Nat) : Int) - 4294967296) ∨
+      p.y ≥ (if im.size.h % 4294967296 < 2147483648 then ((im.size.h % 4294967296 : Nat) : Int)
+        else ((im.size.h % 4294967296 : Nat) : Int) - 4294967296) := by
+    simp only [show ¬ (2147483648 % 4294967296 < 2147483648) from by omega, ↓reduceIte]
+    omega
+  simp only [this, ↓reduceIte]
+
 theorem contains_boundingBox {im : ImageRaw} {p : Pt} :
     im.boundingBox.contains p = true ↔ 0 ≤ p.x ∧ p.x < im.size.w ∧ 0 ≤ p.y ∧ p.y < im.size.h := by
   rw [Rect.contains_iff]; simp only [boundingBox, Pt.zero]; omega
